@@ -264,6 +264,66 @@ def check(run):
                 callers += 1
     run.analysed["call_sites_of_row_grouping"] = callers
     run.floor("call sites of unique_rows/group_rows/hashable_rows", callers, 20)
+    # ------------------------------------------------------------------ R7 quantise, then compare
+    run.rule("R7", "a function with a `digits` parameter compares only quantised values: its raw data argument is read only to be converted (float_to_int / hashable_rows / asanyarray) or measured (len)")
+    from ..provenance import Prov
+    ALLOWED = {"trimesh.grouping.float_to_int", "trimesh.grouping.hashable_rows", "numpy.asanyarray", "numpy.asarray", "numpy.array", "len",
+               "numpy.ascontiguousarray"}
+    gm = ix.modules["trimesh.grouping"]
+    n7 = 0
+    for f in ix.all_functions:
+        if f.module is not gm or "digits" not in f.params or f.parent is not None or f.name == "float_to_int":
+            continue
+        pv = Prov(ix, f)
+        first = f.params[0]
+        parent_of = {}
+        for n in ast.walk(f.node):
+            for ch in ast.iter_child_nodes(n):
+                parent_of[id(ch)] = n
+        for n in ast.walk(f.node):
+            if not (isinstance(n, ast.Name) and n.id == first and isinstance(n.ctx, ast.Load)):
+                continue
+            st = pv.stmt_of(n)
+            if st is None or not pv.cfg.nodes_of.get(id(st)):
+                continue
+            if pv.cfg.entry not in (pv.defs_at(st, first) or []):
+                continue  # refers to a converted rebinding, not to the raw argument
+            n7 += 1
+            par = parent_of.get(id(n))
+            ctx = None
+            if isinstance(par, ast.Call) and n in par.args:
+                ctx = pv.callee(par.func) or (par.func.id if isinstance(par.func, ast.Name) else ast.unparse(par.func))
+            if isinstance(par, ast.keyword):
+                gp = parent_of.get(id(par))
+                ctx = pv.callee(gp.func) if isinstance(gp, ast.Call) else None
+            ok = ctx in ALLOWED
+            run.instance("R7", f.where, f"{f.qualname}: raw `{first}` read at line {n.lineno} as argument of {ctx}", ok)
+            if not ok:
+                run.violation("R7", f.where, f"`{f.qualname}` reads its raw argument `{first}` in `{ast.unparse(st)[:70]}` (line {n.lineno}) after / beside the quantised copy: "
+                                             f"values that are equal at `digits` precision are compared unrounded there", key=key_of("C06-R7", f.qualname, ast.unparse(st)[:40]))
+    run.floor("raw-argument reads in digits functions", n7, 6)
+    # ------------------------------------------------------------------ R8 integer neighbours are compared exactly
+    run.rule("R8", "group(): sorted neighbours are compared through a difference only for floats; integers (whose difference can wrap) and other types use exact inequality")
+    fg = ix.func("trimesh.grouping:group")
+    pg = Prov(ix, fg)
+    defs = [st for st in ast.walk(fg.node) if isinstance(st, ast.Assign) and isinstance(st.targets[0], ast.Name) and st.targets[0].id == "nondupe"]
+    if not defs:
+        raise AnalysisError("anchor vanished: `nondupe` in grouping.group")
+    for st in defs:
+        txt = pg.canon(st.value, st, stop=("values",))
+        g = pg.guards(st, stop=("values",))
+        arithmetic = "numpy.diff(" in txt or " - " in txt
+        if arithmetic:
+            float_only = any(x in ("L_values.dtype.kind == 'f'", "'f' == L_values.dtype.kind") for x in g)
+            ok = float_only
+        else:
+            ok = txt in ("L_values[1:] != L_values[:-1]", "L_values[:-1] != L_values[1:]", "numpy.not_equal(L_values[1:], L_values[:-1])")
+        run.instance("R8", fg.where, f"nondupe := `{txt[:70]}` under {g}", ok)
+        if not ok:
+            run.violation("R8", fg.where, f"group() decides `nondupe` by `{txt[:80]}` under {g or ['no condition']}: "
+                                          + ("a difference of integer neighbours wraps when they are 2**63 or more apart, merging distinct values into one group"
+                                             if arithmetic else "not an exact inequality of sorted neighbours"),
+                          key=key_of("C06-R8", "nondupe", "arith" if arithmetic else "form"))
     run.assume("element values are bounded only by the range guard read from the source; row count is irrelevant to the packing")
     run.assume("np.bitwise_xor/or/add of fields occupying disjoint bit ranges is injective (arithmetic fact)")
     return {
